@@ -1,22 +1,12 @@
 use bc_envelope::prelude::*;
-use bc_components::Compressed;
-use dcbor::prelude::*;
 fn main() {
-    let e = Envelope::new(0u8).wrap_envelope().wrap_envelope().wrap_envelope();
-    let c = e.compress().unwrap();
-    println!("{}", hex::encode(c.tagged_cbor().to_cbor_data()));
-    if let bc_envelope::base::envelope::EnvelopeCase::Compressed(cc) = c.case() {
-        let arr = cc.untagged_cbor().try_into_array().unwrap();
-        let checksum: u32 = arr[0].clone().try_into().unwrap();
-        let size: usize = arr[1].clone().try_into().unwrap();
-        let data: Vec<u8> = arr[2].clone().try_into_byte_string().unwrap();
-        println!("size {} data {}", size, hex::encode(&data));
-        for i in 0..data.len() {
-            let mut d = data.clone();
-            d[i] ^= 0x20;
-            let c2 = Compressed::new(checksum, size, d.clone(), cc.digest_ref_opt().cloned()).unwrap();
-            let e2 = Envelope::try_from(c2).unwrap();
-            match e2.uncompress() { Ok(x) => println!("flip {} -> OK {} {}", i, hex::encode(&d), x.format_flat()), Err(_) => {} }
-        }
-    }
+    let h = std::fs::read_to_string("/verif/out/t/badhex.txt").unwrap();
+    let b = hex::decode(h.trim()).unwrap();
+    let e = Envelope::try_from_cbor_data(b.clone()).unwrap();
+    let re = e.tagged_cbor().to_cbor_data();
+    println!("in : {}", hex::encode(&b));
+    println!("out: {}", hex::encode(&re));
+    println!("{}", e.format());
+    println!("{}", dcbor::CBOR::try_from_data(&b).unwrap().diagnostic());
+    println!("{}", dcbor::CBOR::try_from_data(&re).unwrap().diagnostic());
 }
